@@ -742,7 +742,9 @@ func (sp *sourcePrinter) functions(f *sourceFile) []sourceFunction {
 		// See if we should merge into preceding function.
 		if len(funcs) > 0 {
 			last := funcs[len(funcs)-1]
-			if l-last.end < mergeLimit && last.name == name {
+			// lines are sorted, so l >= last.end and the unsigned difference
+			// cannot overflow, whatever line numbers the profile contains.
+			if uint64(l)-uint64(last.end) < mergeLimit && last.name == name {
 				last.end = l + 1
 				last.flat += fn.flat
 				last.cum += fn.cum
@@ -769,9 +771,9 @@ func (sp *sourcePrinter) functions(f *sourceFile) []sourceFunction {
 			}
 		} else {
 			// Find gap from predecessor and divide between predecessor and f.
-			halfGap := (f.begin - funcs[i-1].end) / 2
-			if halfGap > expand {
-				halfGap = expand
+			halfGap := expand
+			if gap := uint64(f.begin) - uint64(funcs[i-1].end); gap/2 < expand {
+				halfGap = int(gap / 2)
 			}
 			funcs[i-1].end += halfGap
 			f.begin -= halfGap
